@@ -111,7 +111,24 @@ class Puppet:
         send_prop = not rng.chance(1, 8)
         if send_prop:
             self.note("proposal:valid?")
-            self.msg(L, prop)
+            ct = self.opts.get("crash_targets")
+            if ct and rng.chance(ct[0], ct[1]):
+                # C03: crash at the k-th persist of the proposal step (write applied or not); after
+                # the restart the equivocating leader sends a second proposal for the same view,
+                # then the first one again
+                k, applied = rng.choice([0, 0, 0, 1, 2]), rng.chance(1, 2)
+                self.note("crash:proposal k=%d %s" % (k, "applied" if applied else "lost"))
+                self.ops.append({"t": "crash", "k": k, "applied": applied,
+                                 "op": {"t": "msg", "key": L, "sig_ok": True, "m": prop}})
+                p2 = copy.deepcopy(prop)
+                if oh is None:
+                    p2["proposal"]["payload"] = self.fresh_pid()
+                self.note("proposal:equivocation_after_crash")
+                self.msg(L, p2)
+                if rng.chance(1, 2):
+                    self.msg(L, prop)
+            else:
+                self.msg(L, prop)
             if rng.chance(1, 6):
                 self.note("proposal:repeat")
                 self.msg(L, prop)
@@ -151,7 +168,15 @@ class Puppet:
                 v2 = copy.deepcopy(vote); v2["v"]["n"] = str(rng.below(V))
                 self.msg(r, {"commit": v2})
             self.note("commit:valid?")
-            self.msg(r, {"commit": vote})
+            ct = self.opts.get("crash_targets")
+            if ct and w < M.quorum(self.c) <= w + self.c[i][1] and rng.chance(ct[0], ct[1]):
+                # C03: crash at the persist of start_new_view when this vote completes the quorum
+                k, applied = rng.choice([0, 0, 0, 1, 2]), rng.chance(1, 2)
+                self.note("crash:commit_quorum k=%d %s" % (k, "applied" if applied else "lost"))
+                self.ops.append({"t": "crash", "k": k, "applied": applied,
+                                 "op": {"t": "msg", "key": r, "sig_ok": True, "m": {"commit": vote}}})
+            else:
+                self.msg(r, {"commit": vote})
             sent.append(i)
             w += self.c[i][1]
             if rng.chance(1, 10):
@@ -180,7 +205,18 @@ class Puppet:
             saw_prop = True
         if rng.chance(3, 4):
             self.note("timer")
-            self.ops.append({"t": "timer"})
+            ct = self.opts.get("crash_targets")
+            if ct and rng.chance(ct[0], ct[1]):
+                # C03: crash at the persist of start_timeout, then the proposal of this view again
+                k, applied = rng.choice([0, 0, 0, 1, 2]), rng.chance(1, 2)
+                self.note("crash:timer k=%d %s" % (k, "applied" if applied else "lost"))
+                self.ops.append({"t": "crash", "k": k, "applied": applied, "op": {"t": "timer"}})
+                if imp is not None and self.J is not None:
+                    nblk2, oh2 = imp
+                    self.note("proposal:after_timeout_crash")
+                    self.msg(self.leader(V), {"proposal": {"payload": None if oh2 is not None else self.fresh_pid(), "j": self.J}})
+            else:
+                self.ops.append({"t": "timer"})
         if rng.chance(1, 5):
             self.note("timer:repeat")
             self.ops.append({"t": "timer"})
@@ -215,7 +251,15 @@ class Puppet:
                 t2 = copy.deepcopy(t); t2["v"]["g"] = 5
                 self.msg(r, {"timeout": t2})
             self.note("timeout:valid?")
-            self.msg(r, {"timeout": t})
+            ct = self.opts.get("crash_targets")
+            if ct and w < M.quorum(self.c) <= w + self.c[i][1] and rng.chance(ct[0], ct[1]):
+                # C03: crash at the persist of start_new_view when this vote completes the quorum
+                k, applied = rng.choice([0, 0, 0, 1, 2]), rng.chance(1, 2)
+                self.note("crash:timeout_quorum k=%d %s" % (k, "applied" if applied else "lost"))
+                self.ops.append({"t": "crash", "k": k, "applied": applied,
+                                 "op": {"t": "msg", "key": r, "sig_ok": True, "m": {"timeout": t}}})
+            else:
+                self.msg(r, {"timeout": t})
             sent.append(i)
             w += self.c[i][1]
             if rng.chance(1, 10):
@@ -283,16 +327,77 @@ class Puppet:
             v = M.commit(M.view(G, E, U64MAX), M.header(U64MAX, 1))
             self.msg(rng.choice(self.members), {"commit": v})
 
+    # ---- flood (C16; only with opts["flood"], draws no randomness otherwise) ----
+    def flood_setup(self):
+        """Byzantine members: a random subset whose weight stays below the quorum (so that they
+        never complete a certificate on their own), each with its own rising view counter per
+        message kind."""
+        f, rng = self.opts["flood"], self.rng
+        byz, w = [], 0
+        for i in rng.shuffle(list(range(self.n))):
+            if len(byz) < f.get("byz", 3) and w + self.c[i][1] < M.quorum(self.c):
+                byz.append(i)
+                w += self.c[i][1]
+        self.byz = byz
+        base = rng.choice([2, 2, 60, 10 ** 6, 1 << 40, U64MAX - 10 ** 6])
+        self.fl_off = {(i, k): base + rng.below(3) for i in byz for k in (0, 1)}
+        self.fl_turn = 0
+
+    def flood_burst(self, turns):
+        """Every Byzantine member sends one validly signed vote per turn for a view nobody is in,
+        commit and timeout votes alternating, views rising (mostly by 1, so that members meet in
+        the same view and share or split certificates); now and then a vote for a view at or below
+        the member's last one (must be refused), a badly signed one, or one from a non-member."""
+        rng = self.rng
+        for _ in range(turns):
+            self.fl_turn += 1
+            for i in self.byz:
+                r = self.c[i][0]
+                kind = (self.fl_turn + i) % 2
+                z = rng.below(16)
+                if z == 0:
+                    self.note("flood:not_newer")
+                    off = max(0, self.fl_off[(i, kind)] - rng.below(3))
+                else:
+                    self.fl_off[(i, kind)] += rng.choice([1, 1, 1, 1, 2, 5])
+                    off = self.fl_off[(i, kind)]
+                v = min(self.V + off, U64MAX - 1)
+                if kind == 0:
+                    pid = 7000 + (r if rng.chance(1, 2) else 0)
+                    m = {"commit": M.commit(M.view(G, E, v), M.header(v % 1000, pid))}
+                    self.note("flood:commit")
+                else:
+                    m = {"timeout": M.timeout(M.view(G, E, v), None, self.last_cqc if rng.chance(1, 3) else None)}
+                    self.note("flood:timeout")
+                if z == 1:
+                    self.note("flood:bad_sig")
+                    self.msg(r, m, sig_ok=False)
+                elif z == 2 and self.non:
+                    self.note("flood:non_member")
+                    self.msg(rng.choice(self.non), m)
+                self.msg(r, m)
+
     def run(self, rounds):
         self.pending_crash = None
+        flood = self.opts.get("flood")
+        if flood:
+            self.flood_setup()
         for _ in range(rounds):
             start = len(self.ops)
+            if flood and self.rng.chance(1, 2):
+                self.flood_burst(flood.get("turns", 20))
             if self.rng.chance(7, 10) and self.J is not None:
                 self.commit_round()
             else:
                 self.timeout_round()
+            if flood:
+                self.flood_burst(flood.get("turns", 20))
             for _ in range(self.rng.below(3)):
                 self.noise()
+            cm = self.opts.get("crash_more")
+            if cm and self.pending_crash is None and self.rng.chance(cm[0], cm[1]):
+                # C03: more crashes at a persist point of a random operation of this round
+                self.pending_crash = (self.rng.choice([0, 0, 0, 1, 2]), self.rng.chance(1, 2))
             # occasionally a lagging replica is brought up to date only by a new-view message
             if self.rng.chance(1, 8) and self.J is not None:
                 self.note("new_view:catch_up")
@@ -308,7 +413,7 @@ class Puppet:
 
 
 def gen_case(rng, opts):
-    n = rng.choice([1, 2, 3, 4, 4, 5, 6, 6, 7])
+    n = rng.choice([1, 2, 3, 4, 4, 5, 6, 6, 7] if not opts.get("flood") else [2, 4, 4, 5, 6, 6, 7, 7])
     ranks = sorted(rng.shuffle(list(range(16)))[:n])
     style = rng.below(3)
     c = [(r, 1 if style == 0 else (rng.range(1, 4) if style == 1 else rng.range(1, 30))) for r in ranks]
